@@ -77,6 +77,10 @@ TupCmp(op, a, b) == CASE op = "eq" -> a = b [] op = "ne" -> a # b [] op = "le" -
 DefMatches(sp, tv) ==
    CASE sp.kind = "str"  -> Cmp(sp.op, sp.s, tv)
      [] sp.kind = "num"  -> IsIntText(tv) /\ Cmp(sp.op, sp.n, IntOf(tv))
+     \* num2: a NumberValueObject whose current value is no integer (sp.n = twice the value: 21 stands for 10.5)
+     [] sp.kind = "num2" -> IsIntText(tv) /\ Cmp(sp.op, sp.n, 2 * IntOf(tv))
+     \* numset: a NumberValueObject over a container of numbers with the operator `contains` (sp.set = the numbers)
+     [] sp.kind = "numset" -> IsIntText(tv) /\ IntOf(tv) \in SeqToSet(sp.set)
      [] sp.kind = "bool" -> \/ Lower(tv) \in TrueTexts  /\ Cmp(sp.op, sp.b, TRUE)
                             \/ Lower(tv) \in FalseTexts /\ Cmp(sp.op, sp.b, FALSE)
      [] sp.kind = "set"  -> tv \in SeqToSet(sp.set)
@@ -84,7 +88,7 @@ DefMatches(sp, tv) ==
      [] OTHER -> FALSE
 \* (b) algorithm: convert in try/except (conversion error -> on_type_conversion_error -> False), then compare
 Conv(kind, tv) ==
-   CASE kind = "num"  -> IF IsIntText(tv) THEN [ok |-> TRUE, n |-> IntOf(tv), b |-> FALSE] ELSE [ok |-> FALSE, n |-> 0, b |-> FALSE]
+   CASE kind \in {"num", "num2", "numset"} -> IF IsIntText(tv) THEN [ok |-> TRUE, n |-> IntOf(tv), b |-> FALSE] ELSE [ok |-> FALSE, n |-> 0, b |-> FALSE]
      [] kind = "bool" -> LET t == Lower(tv) IN
                          IF t \in TrueTexts THEN [ok |-> TRUE, n |-> 0, b |-> TRUE]
                          ELSE IF t \in FalseTexts THEN [ok |-> TRUE, n |-> 0, b |-> FALSE]
@@ -95,6 +99,8 @@ AlgMatches(sp, tv) ==
    IF ~c.ok THEN FALSE
    ELSE CASE sp.kind = "str"  -> Cmp(sp.op, sp.s, tv)
           [] sp.kind = "num"  -> Cmp(sp.op, sp.n, c.n)
+          [] sp.kind = "num2" -> Cmp(sp.op, sp.n, 2 * c.n)           \* the current value itself is compared, not int(current)
+          [] sp.kind = "numset" -> \E i \in DOMAIN sp.set : sp.set[i] = c.n
           [] sp.kind = "bool" -> Cmp(sp.op, sp.b, c.b)
           [] sp.kind = "set"  -> \E i \in DOMAIN sp.set : sp.set[i] = tv
           [] sp.kind = "ver"  -> IF IsVerText(tv) THEN TupCmp(sp.op, sp.set, VerOf(tv)) ELSE FALSE
